@@ -19,6 +19,8 @@ META = {
     "assumptions": [],
     "not_decided": "diffs still parked in an already-polled adapter's ready buffer when it is handed on; exact arithmetic of the stages (C09)",
 }
+META["technique"] = "static analysis: dominance / provenance / typestate rules over rustc MIR facts (rustc_private driver) + path-partitioned abstract interpretation in a linear-inequality domain (view-length balance; Fourier-Motzkin emptiness, no execution, no external solver)"
+META["explanation"] += ' R12.3 the view handed to the next stage is in source order (no odd number of rev() in the chain it is collected from).'
 
 
 def run(ctx):
